@@ -98,7 +98,15 @@ func (m *RawManager) Node(id uint32) (node *RawNode, found bool) {
 func (m *RawManager) Nodes() []*RawNode {
 	m.mu.Lock()
 	defer m.mu.Unlock()
-	return m.nodes
+	// return a copy; the manager's own slice is appended to and sorted when configurations are created
+	return append([]*RawNode(nil), m.nodes...)
+}
+
+// sortNodes sorts the manager's nodes by ID.
+func (m *RawManager) sortNodes() {
+	m.mu.Lock()
+	defer m.mu.Unlock()
+	OrderedBy(ID).Sort(m.nodes)
 }
 
 // Size returns the number of nodes in the Manager.
@@ -126,6 +134,13 @@ func (m *RawManager) AddNode(node *RawNode) error {
 
 	m.mu.Lock()
 	defer m.mu.Unlock()
+	if _, found := m.lookup[node.id]; found {
+		// the node was added concurrently after the check above
+		if node.channel != nil {
+			_ = node.close()
+		}
+		return fmt.Errorf("config: node %d (%s) already exists", node.ID(), node.Address())
+	}
 	m.lookup[node.id] = node
 	m.nodes = append(m.nodes, node)
 	return nil
